@@ -125,6 +125,34 @@ type c09Inconclusive struct{ why string }
 // number of abandoned histories in this run (a few are tolerated, then the stream stops early)
 var c09Abandoned atomic.Int32
 
+// c09RunHistory runs one seeded history.  An attempt that had to be abandoned (budget expired) is run
+// again from the same seed, at most twice.  Three attempts abandoned at the SAME point are a definite
+// observation - the real code does not progress there (lost wake-up, deadlock) - and are reported as a
+// hang (`H hang` line, a violation with the history as replay).  Attempts abandoned at different points
+// say the machine is not scheduling the goroutines: the stream stops and the check reports "no evidence".
+// Returns false when the stream must stop.
+func c09RunHistory(kind string, seed uint64, st *VStream, stat *VStats, run func(r *VRand) (bool, string)) bool {
+	var wheres []string
+	for attempt := 0; attempt < 3; attempt++ {
+		before := st.N
+		ok, where := run(NewVRand(seed))
+		if ok {
+			if attempt > 0 {
+				stat.Inc(kind + ".recovered-by-retry")
+			}
+			return true
+		}
+		wheres = append(wheres, fmt.Sprintf("%s@op%d", where, st.N-before))
+	}
+	if wheres[0] == wheres[1] && wheres[1] == wheres[2] {
+		stat.Inc(kind + ".hang")
+		st.Emit("H hang "+kind+" "+wheres[0], "hang: three attempts of the same history stopped at the same point")
+		return false
+	}
+	stat.Inc(kind + ".inconclusive-unrecovered")
+	return false
+}
+
 // next waits for the next event of thread t.
 func (h *c09Sched) next(t int) string {
 	select {
@@ -162,13 +190,16 @@ func TestVerifC09Sched(t *testing.T) {
 	if VThorough() {
 		hist = 100000
 	}
-	for hi := 0; hi < hist && c09Abandoned.Load() < 3; hi++ {
-		c09SchedHistory(r.Fork(), st, stat)
+	for hi := 0; hi < hist; hi++ {
+		if !c09RunHistory("sched", r.U64(), st, stat, func(rr *VRand) (bool, string) { return c09SchedHistory(rr, st, stat) }) {
+			break
+		}
 	}
 	stat.Write("c09sched")
 }
 
-func c09SchedHistory(r *VRand, st *VStream, stat *VStats) {
+func c09SchedHistory(r *VRand, st *VStream, stat *VStats) (ok bool, where string) {
+	ok = true
 	{
 		n := 2 + r.Intn(3)
 		w := newC09FwdWorld(n)
@@ -182,8 +213,9 @@ func c09SchedHistory(r *VRand, st *VStream, stat *VStats) {
 					panic(e)
 				}
 				c09Abandoned.Add(1)
-				stat.Inc("sched.inconclusive")
+				stat.Inc("sched.abandoned-attempt")
 				st.Emit("X inconclusive sched "+strings.ReplaceAll(inc.why, " ", "_"), "inconclusive")
+				ok, where = false, strings.ReplaceAll(inc.why, " ", "_")
 			}
 		}()
 		verifYieldHook = h.hook
@@ -273,6 +305,7 @@ func c09SchedHistory(r *VRand, st *VStream, stat *VStats) {
 			stat.Inc("sched.hist.retired")
 		}
 	}
+	return
 }
 
 // ------------------------------------------------------------------------------------------
@@ -545,15 +578,15 @@ func TestVerifC09Pipe(t *testing.T) {
 		stat.Inc("pipe.alloc")
 	}
 	for hi := 0; hi < hist; hi++ {
-		c09PipeScenario(r.Fork(), st, stat)
-		if c09Abandoned.Load() >= 3 {
-			break // the machine does not schedule our goroutines: stop early, the abandoned histories are counted
+		if !c09RunHistory("pipe", r.U64(), st, stat, func(rr *VRand) (bool, string) { return c09PipeScenario(rr, st, stat) }) {
+			break
 		}
 	}
 	stat.Write("c09pipe")
 }
 
-func c09PipeScenario(r *VRand, st *VStream, stat *VStats) {
+func c09PipeScenario(r *VRand, st *VStream, stat *VStats) (ok bool, where string) {
+	ok = true
 	var world *c09PipeWorld
 	defer func() {
 		if e := recover(); e != nil {
@@ -563,8 +596,9 @@ func c09PipeScenario(r *VRand, st *VStream, stat *VStats) {
 			}
 			if inc, ok := e.(c09Inconclusive); ok {
 				c09Abandoned.Add(1)
-				stat.Inc("pipe.inconclusive")
+				stat.Inc("pipe.abandoned-attempt")
 				st.Emit("X inconclusive pipe "+strings.ReplaceAll(inc.why, " ", "_"), "inconclusive")
+				ok, where = false, strings.ReplaceAll(inc.why, " ", "_")
 				return
 			}
 			st.Emit("P harness", fmt.Sprintf("crash: %v", e))
@@ -834,6 +868,7 @@ func c09PipeScenario(r *VRand, st *VStream, stat *VStats) {
 			}
 		}
 	}
+	return
 }
 
 var _ = bytes.Fields
